@@ -161,13 +161,18 @@ impl Monitor for C07 {
         let equity = Big::u(view.pos.margin).add(view.pnl_for(q_whole)).sub(view.funding());
         let outflow = equity.max(fee);
         let vault_short = Big::u(vault) < outflow || vault < view.pos.margin;
+        // what is left for the insurance fund after the fee (0 when the position is in bad debt), and which
+        // path the engine will predictably take: used only to key the signature of a failure precisely
+        let remaining = if equity > fee { equity.sub(fee) } else { Big::zero() };
+        let predicted_partial = e.partial != 0 && ratio.abs() > Big::u(e.liq_fee);
+        let remclass = if predicted_partial { "partial" } else if remaining.is_zero() { "rem=0" } else { "rem>0" };
         let feed = if w.cfg.feed == FeedKind::Real { "real" } else { "mock" };
         let partial = if e.partial == 0 { "p0" } else if e.partial == d { "p100" } else { "pmid" };
         r.count("antecedents-met");
         r.case(format!("{}|{}|{}|{}|vault_short={}|paused={}|{}", feed, which, class, partial, vault_short, e.paused, if view.pos.long_dir { "long" } else { "short" }));
         let pclass = if e.partial == 0 { "p0" } else { "p>0" };
         self.expect = Some((
-            format!("{}|{}|{}|vault_short={}", feed, class, pclass, vault_short),
+            format!("{}|{}|{}|vault_short={},{}", feed, class, pclass, vault_short, remclass),
             format!(
                 "ratio {} ({}) < maintenance {}, size {} margin {} notional {} close quote {} vault {} insurance {} partial {} liq_fee {}",
                 ratio, which, e.maint, view.pos.size, view.pos.margin, view.pos.notional, q_whole, vault, ins_bal, e.partial, e.liq_fee
@@ -386,7 +391,7 @@ impl Monitor for C11 {
                                 let flow = if w.cw20.is_some() {
                                     Big::u(recv).sub(Big::u(st.out.sum_transfers(sender, &engine)))
                                 } else {
-                                    let fees = st.out.sum_transfers(&engine, &ins) + st.out.sum_transfers(&engine, w.fee_pool.as_str());
+                                    let fees = st.out.sum_transfers(&engine, &ins) + st.out.sum_transfers(&engine, st.pre.eng.fee_pool.as_str());
                                     Big::u(recv).sub(Big::u(funds)).add(Big::u(fees))
                                 };
                                 let expect = old_eq.sub(Big::u(new_margin));
@@ -521,7 +526,7 @@ impl Monitor for C12 {
         let d = st.pre.eng.decimals;
         let engine = w.engine.to_string();
         let ins = w.insurance.to_string();
-        let pool = w.fee_pool.to_string();
+        let pool = st.pre.eng.fee_pool.clone();
         let native = w.cw20.is_none();
         let payer = if native { engine.clone() } else { sender.to_string() };
         let to_ins: Vec<u128> = st.out.transfers.iter().filter(|t| t.from == payer && t.to == ins).map(|t| t.amount).collect();
